@@ -571,6 +571,14 @@ func init() {
 					"[path(" + p + ")]", "(" + p + ") |= (" + f + ")", "(" + p + ") = (" + f + ")", "[leaf_paths]?", "delpaths([path(" + p + ")])", "fromstream(tostream)", "[getpath(path(" + p + "))]", "to_entries | from_entries", "(" + p + ") += 1", "[.. | select(type == \"number\")] | length", "walk(" + f + ")?"}[r.IntN(20)]
 				kC01x.Do(c, c01Case{Src: src, Input: pickIn()})
 			}
+			// one array stored under two paths (or held in a variable), then extended, updated or deleted from through each: what
+			// is written through one path must not show under the other
+			for _, src := range c02TwoPaths() {
+				sp := func(xs ...any) []any { return append(make([]any, 0, len(xs)+5), xs...) } // spare capacity, as a decoder leaves it
+				for _, in := range []any{map[string]any{"a": sp(0, 1, 2)}, map[string]any{"a": sp(0, 1, 2, 3, 4), "c": 1}, sp(sp(0, 1, 2)), map[string]any{"a": map[string]any{"k": sp(7, 8, 9)}}} {
+					kC01x.Do(c, c01Case{Src: src, Input: run.TV{V: in}})
+				}
+			}
 			// value operands (bindings, destructuring, indices, conditions, arguments) in the middle of path expressions
 			for _, src := range gen.PathBindPrograms() {
 				for _, in := range gen.PathBindInputs() {
@@ -668,3 +676,19 @@ func init() {
 var kC01x = run.NewKind("c02.model", func(c *run.Ctx, t c01Case) *run.Fail {
 	return c01Decide(c, t.Src, t.Input.V, "C02")
 })
+
+func c02TwoPaths() []string {
+	copies := []string{".b = .a", ".b = (.a // .[0])", ". as $s | .b = ($s.a // $s[0])", ".b = [.a[]?, .[0][]?]", ".b = (.a // .[0] | .[0:])", "{a: (.a // .[0]), b: (.a // .[0])}"}
+	writes := [][2]string{{".a += [\"A\"]", ".b += [\"B\"]"}, {".a |= . + [\"A\"]", ".b |= . + [\"B\"]"}, {".a[length] = \"A\"", ".b[length] = \"B\""}, {".a |= setpath([length]; \"A\")", ".b |= setpath([length]; \"B\")"},
+		{".a[0] = \"A\"", ".b[0] = \"B\""}, {"del(.a[0])", "del(.b[1])"}, {".a[1:] = [\"A\"]", ".b[:1] = [\"B\"]"}, {".a += [\"A\"]", ".b |= .[:2] + [\"B\"]"}, {".a |= map(. + 1)?", ".b += [\"B\"]"}, {".a += [\"A\", \"A2\"]", ".b += [\"B\"]"}}
+	var out []string
+	for _, cp := range copies {
+		for _, w := range writes {
+			out = append(out, "try ("+cp+" | "+w[0]+" | "+w[1]+") catch \"E\"", "try ("+cp+" | "+w[1]+" | "+w[0]+" | [.a, .b]) catch \"E\"")
+		}
+	}
+	for _, w := range writes {
+		out = append(out, "try ((.a // .[0]) as $x | {a: $x, b: $x} | "+w[0]+" | "+w[1]+" | [., $x]) catch \"E\"", "try ([(.a // .[0]) | setpath([length]; \"x\", \"y\")] | map(.[-1])) catch \"E\"", "try ((.a // .[0]) as $x | [($x[:2] | setpath([2]; \"x\")), $x]) catch \"E\"")
+	}
+	return out
+}
